@@ -60,6 +60,33 @@ rare branches):
         back to approximate days), percentile 0.4 / 1 / other in best_available and to_ddy_monthly_cooling,
         Winter / Summer / unknown day type, negative circular mean (+360), int vs float percentile in the name;
       STAT: tau present / absent (N_A), design conditions present / absent.
+
+Round 6 (comparison strictness: an equality test narrowed to "the fields that matter", typically while a shared
+helper is extracted): the tests in the anchored code that compare whole objects are the two location-update loops
+of ddy.py (`dd.location != self._location` in the design_days setter - hence __init__, from_dict, from_design_day,
+duplicate, EPW/STAT.to_ddy - and in the location setter) and the `__key`-based `__eq__` of Location / DesignDay /
+the condition classes they rest on.
+  generator stratum `ddy_station`: the days' Location differs from the DDY's in exactly ONE of the nine attributes
+      (each in turn), in metadata only (state, country, station id, source [+ city, elevation] - one station as
+      an EPW and as a .ddy file describe it), in position only, in several, in nothing (equal copy / same object)
+      x 12 routes into a DDY (constructor with list / tuple / generator, setter, setter with iterator, setter
+      twice, location setter, location setter after an equal location, from_design_day, from_dict through JSON,
+      duplicate, mixed days) + the days of a shipped EPW in a DDY at the five Site:Location fields of its header;
+  oracle clause: the file has ONE Site:Location, so every day of the DDY carries all nine attributes of the
+      DDY's location (compared attribute by attribute, never through Location.__eq__), keeps its conditions, the
+      file text is that of days built at the DDY location, the file reads back equal (day locations again
+      attribute by attribute: `_ddy_rt` now does this for every DDY round trip of the check) and the DDY equals
+      the one built from days at its location;
+  translator (tools/extract/ddy_setter.py): the test of BOTH update loops must be the whole-object comparison
+      (helper methods `self._x()` are inlined), Location.__key / __slots__ are copied; Lean: Model/DDYShapes
+      `updateLocationsWith` / `readBack`, theorems C16_ddy_location_guards, C16_location_key_complete,
+      C16_ddy_days_carry_ddy_location, C16_ddy_update_keeps_days, C16_ddy_update_roundtrip,
+      C16_ddy_relaxed_guard_breaks_roundtrip; correspondence op `ddy_locs` (driver) runs the model loop and the
+      real setters on the same locations.
+  Recorded finding C16-ddy-setitem-foreign-location: `DDY.__setitem__` has no update loop - a day assigned as an
+      item keeps the location it came with, and the written file does not read back equal (route `setitem` of
+      `ddy_station`, one fixed case + one with an equal location that must hold; theorem
+      C16_ddy_setitem_counterexample); the ddy histories assign items that already are at the DDY location.
 """
 import json
 import math
@@ -105,7 +132,10 @@ RULE = ('correspondence: design days built from plain numbers (every date of the
         'layouts, every guarded field count 17..26; latin-1 DDY files; EPW variants written by the harness (leap '
         'year with 29 Feb, missing pressure, no design conditions) with coincident values recomputed from the raw '
         'records; STAT monthly families 0.4/2/5/10 % against their table rows; dry-bulb profile at 1e-300..1e16; '
-        'branch counters `branch:*` in the evidence')
+        'branch counters `branch:*` in the evidence. Round 6: DDYs whose days come with a Location that differs '
+        'from the DDY location in exactly one of its nine attributes / in metadata only / in position only / in '
+        'nothing x 13 routes into the DDY (constructor, setters, location setter, from_dict, from_design_day, '
+        'duplicate, item assignment), days of a shipped EPW in a DDY at the Site:Location fields of its header')
 TRUSTED_BASE = [
     'translator tools/extract/designday_tables.py: copies HOURLY_MULTIPLIERS, the key lists, the ep_vals '
     'layout of to_idf, the ep_fields indices/guards of from_idf and the day offset of start_moy',
@@ -126,6 +156,9 @@ TRUSTED_BASE = [
     'one may be exchanged)',
     'translator tools/extract/ddy_setter.py: reads the statement order of the DDY.design_days setter '
     '(materialise / check / store); Model/DDYShapes.lean interprets it on re-iterable and one-shot arguments',
+    'location update of the DDY setters: translator reads the test of both loops and Location.__key / __slots__; '
+    'locations are opaque tokens in the model (equal token = equal nine attributes), tied by the `ddy_locs` '
+    'correspondence; the oracle compares the nine attributes one by one',
     'coarse sun of the oracle (Cooper declination, simple equation of time): only day / night of the radiation '
     'with a 3 degree margin is asserted against it',
     'object state machine (Model/DesignDayObj.lean): the state is the public state; validation of setters and '
@@ -854,6 +887,49 @@ def _correspondence(ctx, rng, tmp):
     compare_batch(ctx, 'ddy_setter', scases, lambda c: 'ddy_setter %s b%s' % (kind_of(c[0]), c[1]), impl_setter,
                   key=repr)
 
+    # --- round 6: the location-update loops of the two setters against Model/DDYShapes.updateLocations: the days'
+    # locations differ from the DDY's in one attribute / metadata only / position only / nothing; a location is
+    # an opaque token for the model (hex of its nine canonical fields written here by hand)
+    def tok9(ld, var):
+        v = dict(ld)
+        v.update(var)
+        f = lambda x: repr(float(x))
+        return _x(json.dumps([v['city'], v.get('state') or '-', v.get('country') or '-', f(v['lat']), f(v['lon']),
+                              f(v['tz']), f(v['elev']), v.get('station_id'), v.get('source')]))
+
+    lcases = []
+    for k in range(ctx.n(60, 600)):
+        ld = _rand_loc(rng)
+        n = rng.choice([1, 2, 3, 5])
+        if k < 2 * len(LOC_ATTRS):
+            vs = [_station_var(rng, ld, [LOC_ATTRS[k % len(LOC_ATTRS)]]) for _ in range(n)]
+        else:
+            vs = [_gen_ddy_station(rng)['var'] if rng.random() < 0.7 else {} for _ in range(n)]
+            vs = [_station_var(rng, ld, sorted(v)) for v in vs]
+        lcases.append({'which': 'loc' if k % 3 == 0 else 'days', 'loc': ld, 'vars': vs})
+        for v in vs:
+            ctx.count('ddy_locs:differs:' + (','.join(sorted(v)) if len(v) <= 1 else
+                                              'metadata_only' if not set(v) & {'lat', 'lon', 'tz'} else 'several')
+                      if v else 'ddy_locs:differs:nothing')
+
+    def impl_locs(c):
+        L = _build_loc9(c['loc'])
+        days = [_build(_with(), _build_loc9(c['loc'], v)) for v in c['vars']]
+        if c['which'] == 'loc':
+            y = DDY(_build_loc9(c['loc'], c['vars'][0]), days)
+            y.location = L
+        else:
+            y = DDY(L, [])
+            y.design_days = days
+        return 'ok ' + ' '.join(_x(json.dumps(list(_loc_fields(d.location)))) for d in y.design_days)
+
+    import contextlib
+    import io
+    with contextlib.redirect_stdout(io.StringIO()):
+        compare_batch(ctx, 'ddy_locs', lcases, lambda c: 'ddy_locs %s %s %s' % (
+            c['which'], tok9(c['loc'], {}), ' '.join(tok9(c['loc'], v) for v in c['vars'])), impl_locs,
+            key=lambda c: json.dumps(c, sort_keys=True))
+
     # --- from_ashrae_dict_heating / cooling
     tables = getattr(ctx, 'tables', None)
     hkeys = tables['keys']['HEATING_KEYS'] if tables else DesignDay.HEATING_KEYS
@@ -1148,6 +1224,8 @@ def _check_case(op, inp):
         return _check_stat_monthly(inp)
     if op == 'idf_text':
         return _check_idf_text(inp)
+    if op == 'ddy_station':
+        return _check_ddy_station(inp)
     if op == 'idf_roundtrip':
         desc = inp['desc']
         sig = {'sky': _sky_sig(desc), 'h_type': desc['h_type'], 'wet_bulb_range': desc['wbr'] is not None}
@@ -1203,15 +1281,218 @@ def _ddy_rt(y, sig):
                     'sig': dict(sig, clause='count')}
         if back.location != y.location:
             return {'required': str(y.location), 'observed': str(back.location), 'sig': dict(sig, clause='location')}
+        if _loc_fields(back.location) != _loc_fields(y.location):
+            return {'required': 'location read back with the fields %r' % (_loc_fields(y.location),),
+                    'observed': repr(_loc_fields(back.location)), 'sig': dict(sig, clause='location_fields')}
         for i, (a, b) in enumerate(zip(y.design_days, back.design_days)):
             if a != b:
                 return {'required': 'day %d equal: %s' % (i, _canon('ok ' + _show_dd(a))),
                         'observed': _canon('ok ' + _show_dd(b)), 'sig': dict(sig, clause='day')}
+            if _loc_fields(a.location) != _loc_fields(b.location):
+                # every field of the location, one by one (does not rely on Location.__eq__)
+                return {'required': 'day %d read back at the location it had in the DDY: %r' % (i, _loc_fields(a.location)),
+                        'observed': repr(_loc_fields(b.location)), 'sig': dict(sig, clause='day_location_fields')}
         if back != y:
             return {'required': 'DDY equal', 'observed': 'unequal', 'sig': dict(sig, clause='ddy')}
         return None
     finally:
         shutil.rmtree(tmp, ignore_errors=True)
+
+
+# --- round 6: comparison strictness (an equality guard narrowed to "the fields that matter")
+#
+# ddy.py decides with `dd.location != self._location` whether a day is moved to the DDY's location; designday.py /
+# location.py compare objects through their full keys.  The statement "a DDY file of design days reads back equal"
+# needs every one of the NINE Location attributes of every day to be those of the DDY (the file has a single
+# Site:Location).  Stratum: the days' location differs from the DDY's in exactly ONE attribute (each of the nine in
+# turn), in a group of attributes thought not to matter (metadata only / position only), in none (an equal copy, the
+# same object); x every route by which days get into a DDY or a DDY gets its location.
+
+LOC_ATTRS = ('city', 'state', 'country', 'lat', 'lon', 'tz', 'elev', 'station_id', 'source')
+STATION_ROUTES = ('ctor', 'ctor_tuple', 'ctor_gen', 'setter', 'setter_gen', 'setter_twice', 'loc_setter',
+                  'loc_setter_equal_first', 'from_design_day', 'from_dict', 'duplicate', 'mixed')
+
+
+def _loc_fields(loc):
+    """All nine attributes of a Location, numbers by repr of their float value (no use of Location.__eq__)."""
+    def num(v):
+        try:
+            return repr(float(v))
+        except (TypeError, ValueError):
+            return 'not-a-number:%r' % (v,)
+    return (loc.city, loc.state, loc.country, num(loc.latitude), num(loc.longitude), num(loc.time_zone),
+            num(loc.elevation), loc.station_id, loc.source)
+
+
+def _build_loc9(ld, var=None):
+    from ladybug.location import Location
+    v = dict(ld)
+    v.update(var or {})
+    return Location(v['city'], v.get('state'), v.get('country'), v['lat'], v['lon'], v['tz'], v['elev'],
+                    v.get('station_id'), v.get('source'))
+
+
+def _station_var(rng, ld, which):
+    """Attributes of the days' location that differ from the DDY location `ld` (a new value each)."""
+    alt = {'city': ld['city'] + rng.choice([' AP', ' Intl', ' 2', 'x']), 'state': rng.choice(['IL', 'NSW', 'X']),
+           'country': rng.choice(['USA', 'AUS', 'JPN']),
+           'lat': round(max(-89.0, min(89.0, float(ld['lat']) + rng.choice([0.01, -0.5, 1e-9, 12.0]))), 9),
+           'lon': round(max(-179.0, min(179.0, float(ld['lon']) + rng.choice([0.01, -0.5, 1e-9, 15.0]))), 9),
+           'tz': float(ld['tz']) + (1.0 if float(ld['tz']) < 13 else -1.0),
+           'elev': float(ld['elev']) + rng.choice([0.5, -3.0, 1000.0, 1e-6]),
+           'station_id': rng.choice(['725300', '947670', '0']), 'source': rng.choice(['TMY3', 'IWEC', 'x'])}
+    return {k: alt[k] for k in which}
+
+
+def _check_ddy_station(inp):
+    from ladybug.ddy import DDY
+    from ladybug.designday import DesignDay
+    if 'epw' in inp:
+        return _check_ddy_station_epw(inp)
+    ld, var, route = inp['loc'], inp['var'], inp['route']
+    descs = inp['days']
+    sig = {'route': route, 'differs': ','.join(sorted(var)) or 'nothing'}
+    L = _build_loc9(ld)
+
+    def far():                                          # the days' own location (a new object per day)
+        return L if inp.get('same_object') else _build_loc9(ld, var)
+
+    try:
+        days = [_build(d, far()) for d in descs]
+        if route == 'ctor':
+            y = DDY(L, days)
+        elif route == 'ctor_tuple':
+            y = DDY(L, tuple(days))
+        elif route == 'ctor_gen':
+            y = DDY(L, (d for d in days))
+        elif route == 'setter':
+            y = DDY(L, [_build(descs[0], L)])
+            y.design_days = days
+        elif route == 'setter_gen':
+            y = DDY(L, [_build(descs[0], L)])
+            y.design_days = iter(days)
+        elif route == 'setter_twice':
+            y = DDY(L, days)
+            y.design_days = [_build(d, far()) for d in descs]
+        elif route == 'loc_setter':
+            y = DDY(far(), days)
+            y.location = L
+        elif route == 'loc_setter_equal_first':         # an equal location first, then the other one, then back
+            y = DDY(far(), days)
+            y.location = far()
+            y.location = L
+        elif route == 'from_design_day':
+            y = DDY.from_design_day(days[0])
+            y.design_days = days
+            y.location = L
+        elif route == 'from_dict':
+            dct = {'type': 'DDY', 'location': L.to_dict(), 'design_days': [d.to_dict() for d in days]}
+            y = DDY.from_dict(json.loads(json.dumps(dct)))
+        elif route == 'duplicate':
+            y = DDY(L, days).duplicate()
+        elif route == 'setitem':                        # item assignment: ddy.py has no update loop there
+            y = DDY(L, [_build(d, L) for d in descs])
+            for i in range(len(days)):
+                y[i if i % 2 == 0 else i - len(days)] = days[i]
+        elif route == 'mixed':                          # days at the DDY location and days of the other one, alternating
+            days = [_build(d, L if i % 2 else far()) for i, d in enumerate(descs)]
+            y = DDY(L, days)
+        else:
+            raise ValueError('unknown route %r' % (route,))
+    except (AssertionError, TypeError, ValueError, AttributeError, KeyError) as e:
+        return {'required': 'a DDY of %d days at its location through %s' % (len(descs), route),
+                'observed': 'raises %s: %s' % (type(e).__name__, e), 'sig': dict(sig, raises=type(e).__name__)}
+    want = _loc_fields(_build_loc9(ld))
+    if _loc_fields(y.location) != want:
+        return {'required': 'DDY location %r' % (want,), 'observed': repr(_loc_fields(y.location)),
+                'sig': dict(sig, clause='ddy_station:ddy_location')}
+    if len(y.design_days) != len(descs):
+        return {'required': '%d design days' % len(descs), 'observed': len(y.design_days),
+                'sig': dict(sig, clause='ddy_station:count')}
+    for i, dd in enumerate(y.design_days):
+        got = _loc_fields(dd.location)
+        if got != want:
+            bad = [LOC_ATTRS[j] for j in range(9) if got[j] != want[j]]
+            return {'required': 'the file has one Site:Location: day %d of the DDY is at the location of the DDY %r'
+                                % (i, want), 'observed': 'day location %r (differs in %s)' % (got, ','.join(bad)),
+                    'sig': dict(sig, clause='ddy_station:day_location', kept=','.join(bad))}
+        if _canon('ok ' + _show_dd(dd)) != _canon('ok ' + _show_dd(_build(descs[i]))):
+            return {'required': 'day %d keeps its conditions: %s' % (i, _canon('ok ' + _show_dd(_build(descs[i])))),
+                    'observed': _canon('ok ' + _show_dd(dd)), 'sig': dict(sig, clause='ddy_station:day_values')}
+    # the file text is that of days built at the DDY location; the file reads back equal
+    exp = L.to_idf() + '\n\n' + ''.join(_build(d, L).to_idf() + '\n\n' for d in descs)
+    if y.to_file_string() != exp:
+        return {'required': 'file text = location + the design days', 'observed': 'another text',
+                'sig': dict(sig, clause='ddy_station:text')}
+    res = _ddy_rt(y, dict(sig, clause0='ddy_station'))
+    if res:
+        return res
+    # ... and equals the DDY of days that were built at the DDY location from the start
+    ref = DDY(_build_loc9(ld), [_build(d, _build_loc9(ld)) for d in descs])
+    if not (y == ref and ref == y and hash(y) == hash(ref)) or y != ref:
+        return {'required': 'equal to the DDY built from days at the DDY location', 'observed': 'unequal',
+                'sig': dict(sig, clause='ddy_station:ref')}
+    return None
+
+
+def _check_ddy_station_epw(inp):
+    """The days an EPW hands out (location with state, country, source, station id) in a DDY whose location is
+    the same station as a .ddy file names it (the five fields of Site:Location, read from the EPW's first line
+    here)."""
+    from ladybug.ddy import DDY
+    from ladybug.epw import EPW
+    from ladybug.location import Location
+    path = _epw_path(inp['epw'])
+    with open(path, 'r', errors='ignore') as f:
+        h = f.readline().strip().split(',')
+    L = Location(h[1].replace('\\', ' ').replace('/', ' '), None, None, float(h[6]), float(h[7]), float(h[8]), float(h[9]))
+    sig = {'route': inp['route'], 'differs': 'epw-metadata'}
+    epw = EPW(path)
+    days = list(epw.best_available_design_days(inp.get('percentile', 0.4)))
+    if inp['route'] == 'ctor':
+        y = DDY(L, days)
+    elif inp['route'] == 'setter':
+        y = DDY(L, [])
+        y.design_days = tuple(days)
+    else:
+        y = DDY(epw.location, days)
+        y.location = L
+    want = _loc_fields(L)
+    for i, dd in enumerate(y.design_days):
+        got = _loc_fields(dd.location)
+        if got != want:
+            bad = [LOC_ATTRS[j] for j in range(9) if got[j] != want[j]]
+            return {'required': 'the file has one Site:Location: day %d of the DDY is at the location of the DDY %r'
+                                % (i, want), 'observed': 'day location %r (differs in %s)' % (got, ','.join(bad)),
+                    'sig': dict(sig, clause='ddy_station:day_location', kept=','.join(bad))}
+    return _ddy_rt(y, dict(sig, clause0='ddy_station'))
+
+
+def _gen_ddy_station(rng, which=None, route=None):
+    ld = _rand_loc(rng)
+    if which is None:
+        r = rng.random()
+        if r < 0.5:
+            which = [rng.choice(LOC_ATTRS)]
+        elif r < 0.65:
+            which = ['state', 'country', 'station_id', 'source']            # the same station as an EPW names it
+        elif r < 0.75:
+            which = ['city', 'elev', 'state', 'country', 'station_id', 'source']
+        elif r < 0.85:
+            which = ['lat', 'lon', 'tz']
+        elif r < 0.93:
+            which = rng.sample(LOC_ATTRS, rng.randrange(2, 9))
+        else:
+            which = []
+    days = []
+    for _ in range(rng.choice([1, 2, 3])):
+        d = _rand_desc(rng, sky=rng.choice(['clear', 'tau']))
+        d['wbr'] = None
+        days.append(d)
+    inp = {'loc': ld, 'var': _station_var(rng, ld, which), 'route': route or rng.choice(STATION_ROUTES), 'days': days}
+    if not which and rng.random() < 0.5:
+        inp['same_object'] = True
+    return inp
 
 
 def _expected_radiation(desc, loc, ts=1):
@@ -3565,6 +3846,23 @@ def _oracle_cases(ctx):
         yield 'history', _gen_history(rng, refused_first=(i % 4 == 0))
     for _ in range(25 if not big else 300):
         yield 'ddy_history', _gen_ddy_history(rng)
+    # round 6: days whose location differs from the DDY's in ONE attribute / in metadata only / in nothing,
+    # through every route into a DDY (fixed part: each attribute x the three setters; then a generated stream)
+    for j, attr in enumerate(LOC_ATTRS):
+        for route in (('ctor', 'setter', 'loc_setter') if big else
+                      (('ctor', 'setter', 'loc_setter')[(j + ctx.seed) % 3],)):
+            yield 'ddy_station', _gen_ddy_station(rng, which=[attr], route=route)
+    yield 'ddy_station', _gen_ddy_station(rng, which=['state', 'country', 'station_id', 'source'], route='ctor')
+    yield 'ddy_station', _gen_ddy_station(rng, which=[], route='loc_setter')
+    # recorded finding: DDY.__setitem__ keeps the location the new day came with
+    yield 'ddy_station', {'loc': FIXED_LOC, 'var': {'state': 'IL', 'country': 'USA', 'station_id': '725300', 'source': 'TMY3'},
+                          'route': 'setitem', 'days': [_with()]}
+    yield 'ddy_station', _gen_ddy_station(rng, which=[], route='setitem')
+    for _ in range(40 if not big else 600):
+        yield 'ddy_station', _gen_ddy_station(rng)
+    for k, fn in enumerate(epws if big else [epws[(ctx.seed + 3) % len(epws)]]):
+        yield 'ddy_station', {'epw': fn, 'route': ('ctor', 'setter', 'loc_setter')[(k + ctx.seed) % 3],
+                              'percentile': (0.4, 1)[k % 2]}
     ehist = epws if big else [epws[(ctx.seed + 1) % len(epws)]]
     for fn in ehist:
         yield 'epw_history', _gen_epw_history(rng, fn)
@@ -3633,6 +3931,22 @@ def _case_branches(op, inp):
         out.append('ddy_setter:' + ('list' if inp['shape'] == 'list' else 'other_iterable'))
         if inp['via'] == 'refused':
             out += ['ddy_setter:not_iterable', 'ddy_setter:wrong_item']
+    elif op == 'ddy_station':
+        if 'epw' in inp:
+            out.append('ddy_update:metadata_only:epw')
+        else:
+            v = sorted(inp['var'])
+            out.append('ddy_update:via:' + inp['route'])
+            if not v:
+                out.append('ddy_update:equal_location' + (':same_object' if inp.get('same_object') else ''))
+            elif len(v) == 1:
+                out.append('ddy_update:one_attribute:' + v[0])
+            elif not set(v) & {'lat', 'lon', 'tz'}:
+                out.append('ddy_update:metadata_only')
+            elif set(v) <= {'lat', 'lon', 'tz'}:
+                out.append('ddy_update:position_only')
+            else:
+                out.append('ddy_update:several')
     elif op == 'ashrae_shapes':
         out.append('ashrae_%s:%s' % (inp['kind'], 'second_percentile' if inp['use_second'] else 'first_percentile'))
         out.append('ashrae:pressure_' + ('default' if inp.get('pressure') is None else 'given'))
@@ -3644,7 +3958,7 @@ def _case_branches(op, inp):
 
 
 _LIGHT_OPS = ('profile', 'dates', 'idf_roundtrip', 'history', 'ddy_roundtrip', 'ddy_history', 'shapes', 'routes',
-              'ashrae_shapes', 'idf_text')
+              'ashrae_shapes', 'idf_text', 'ddy_station')
 
 
 def _run_stream(ctx, cases):
